@@ -72,6 +72,8 @@ type Interp struct {
 	sharedReads   map[*Value]string
 	atomicWritten map[*Value]string
 	inAtomic      bool
+	phase         int
+	phases        map[int]*phaseLog
 	syncUses     []string
 	nondetUses   []string
 	// statistics
